@@ -267,8 +267,13 @@ class ParallelogramBoundary(BoundaryDomain):
         points = points[:, list(self.space.keys())].as_tensor
         normals = torch.zeros_like(points, device=device)
         bary_x, bary_y = self.domain._solve_lgs(points - origin, dir_1, dir_2)
-        normal_dir_1 = self._get_normal_direction(dir_1, device)
-        normal_dir_2 = -self._get_normal_direction(dir_2, device)
+        # the sign of the determinant tells if the corners are ordered clockwise,
+        # in this case the outward direction is the opposite one
+        orientation = torch.sign(
+            dir_1[:, :1] * dir_2[:, 1:] - dir_1[:, 1:] * dir_2[:, :1]
+        )
+        normal_dir_1 = orientation * self._get_normal_direction(dir_1, device)
+        normal_dir_2 = -orientation * self._get_normal_direction(dir_2, device)
         # compute for each point what the normal vector should be, by checking the
         # value of the local barycentric coordinate = 0 or 1
         self._add_local_normal_vector(
